@@ -41,6 +41,21 @@ T("C08", f"{GEN}: reduce edges (twice) from states fixed by construction bounds 
 T("C10", f"{GEN}: adversarial id/bounds grammar enumerated completely; errors() vs reference validator (soundness + completeness families)",
   "Every model of the adversarial grammar is validated by the library and by an own-traversal reference validator that never hashes.",
   "trusted: well_defined() in c10.py", "4/C10")
+T("C11", f"{GEN}: every small integer system x bound boxes; reduction API vs brute-force solution set, applied twice",
+  "Every system of the stated spaces is reduced by the real code and compared with the brute-force solution set and its projection.",
+  "trusted: brute force over the box (numpy int64)", "4/C11")
+T("C12", f"{GEN}: every small integer system x bound boxes; tighten/row/column bounds and combination counts vs brute force",
+  "Every system of the stated spaces; containment, no widening, exact row bounds, direct counts.",
+  "trusted: brute force over the box (numpy int64)", "4/C12")
+T("C13", f"{GEN}: every integer array of the stated shapes x 7 methods; dominance / dense-rank / direct definitions",
+  "Every array inside the bound is compressed by the real code (incl. puan_rspy bit allocation) and judged by exact integer arithmetic.",
+  "trusted: the level ordering written in c13.py; 64-bit precondition", "4/C13")
+T("C19", f"{GEN}: every small matrix x every points array of ndim 1,2,3; direct A p >= b",
+  "Every (matrix, points) pair inside the bound is classified by the three methods and compared with a direct computation incl. output shapes.",
+  "trusted: numpy matmul", "4/C19")
+T("C20", f"{GEN}: every variable list x dictionary x default x dtype; every context/sub-list/mask; every 2x2 system",
+  "Every case inside the bound is compared with the statement taken literally.",
+  "trusted: the literal oracle in c20.py", "4/C20")
 
 
 def build():
